@@ -1322,6 +1322,13 @@ class _Activation:
         key = ('v', name)
         self.e.types[key] = cast.qual_type(d)
         init = [c for c in cast.inner(d) if not (cast.kind(c) or '').endswith('Attr')]
+        if init and d.get('storageClass') == 'static':
+            qt_ = cast.qual_type(d).strip()
+            base_ = qt_[:qt_.index('[')].strip() if '[' in qt_ else qt_
+            if not (base_.startswith('const ') or base_.endswith(' const') or base_.endswith('*const')):
+                # the initialiser of a mutable static local runs once, before the first call: at this point the object holds
+                # whatever earlier calls left in it
+                init = []
         if not init:
             st = st.copy()
             self.clear_var(st, key)
